@@ -6,6 +6,7 @@ import (
 	"encoding/json"
 	"fmt"
 	"io"
+	"net"
 	"reflect"
 	"sync"
 	"time"
@@ -85,12 +86,13 @@ type rtCase struct {
 }
 
 type rtRun struct {
-	desc    rtCase
-	prog    []WStep
-	w       *Writer
-	wconn   *xport.Conn
-	written []byte
-	pool    *TrackPool
+	dialOffered bool
+	desc        rtCase
+	prog        []WStep
+	w           *Writer
+	wconn       *xport.Conn
+	written     []byte
+	pool        *TrackPool
 }
 
 func genRT(r *gen.R, thorough bool) (Cfg, []WStep) {
@@ -129,7 +131,36 @@ func execWriteVia(cfg Cfg, prog []WStep, viaUpgrade bool) *rtRun {
 	run.wconn = xport.New(nil)
 	var c *ws.Conn
 	head := 0
-	if viaUpgrade {
+	if viaUpgrade && !cfg.Server {
+		// client connection built by the real Dialer.Dial over the scripted conn; the
+		// reply announces permessage-deflate iff cfg.Comp (the client offers it always
+		// when cfg.Comp, and half of the time when the server will decline)
+		offer := cfg.Comp || len(prog)%2 == 0
+		d := &ws.Dialer{EnableCompression: offer, WriteBufferSize: cfg.WB, ReadBufferSize: cfg.RB}
+		if cfg.Pool {
+			d.WriteBufferPool = run.pool.Front(0)
+		}
+		extra := ""
+		if cfg.Comp {
+			extra = "Sec-WebSocket-Extensions: " + deflateParams + "\r\n"
+		}
+		run.wconn.OnWrite = func(all []byte) []xport.Chunk {
+			if i := bytes.Index(all, []byte("\r\n\r\n")); i >= 0 && head == 0 {
+				head = i + 4
+				return []xport.Chunk{{Data: good101(all[:i+4], extra)}}
+			}
+			return nil
+		}
+		dd := *d
+		dd.NetDial = func(network, addr string) (net.Conn, error) { return run.wconn, nil }
+		var err error
+		c, _, err = dd.Dial("ws://c02.example/x", nil)
+		if err != nil {
+			return nil
+		}
+		run.wconn.OnWrite = nil
+		run.dialOffered = offer
+	} else if viaUpgrade {
 		w := newFakeRW(run.wconn, nil, 4096)
 		u := &ws.Upgrader{EnableCompression: cfg.Comp}
 		if cfg.Pool {
@@ -193,20 +224,20 @@ func runC01(ctx *core.Ctx, out *core.Out) {
 		return
 	}
 	cfg, prog := genRT(r, ctx.Thorough())
-	via := cfg.Server && ctx.Idx%5 == 4
-	if via {
+	via := ctx.Idx%5 == 4
+	if via && cfg.Server {
 		cfg.WB = 4096 // the hijacked bufio.Writer's buffer is reused
 		cfg, prog = regenFor(r, cfg, ctx.Thorough())
 	}
 	run := execWriteVia(cfg, prog, via)
 	desc := rtCase{Cfg: cfg, Prog: progDesc(prog), Upgrade: via}
 	if run == nil {
-		out.Inconcl("set-up handshake through Upgrader.Upgrade failed")
+		out.Inconcl("set-up handshake through Upgrader.Upgrade / Dialer.Dial failed")
 		out.Eval(core.J(desc), false)
 		return
 	}
 	if via {
-		out.Count("connections_built_by_upgrade", 1)
+		out.Count("connections_built_by_upgrade_or_dial", 1)
 	}
 
 	fail := func(sig, what string, extra map[string]interface{}) {
@@ -278,7 +309,7 @@ func runC01(ctx *core.Ctx, out *core.Out) {
 
 	if rmode == 3 {
 		// JoinMessages over the whole connection
-		const term = "\x00|\n"
+		term := []string{"\x00|\n", "", "\n"}[r.Intn(3)]
 		jr := ws.JoinMessages(rc, term)
 		var got bytes.Buffer
 		buf := make([]byte, r.Range(1, 5000))
@@ -421,8 +452,8 @@ func runC02(ctx *core.Ctx, out *core.Out) {
 	}
 	r := ctx.R
 	cfg, prog := genRT(r, ctx.Thorough())
-	via := cfg.Server && ctx.Idx%5 == 4
-	if via {
+	via := ctx.Idx%5 == 4
+	if via && cfg.Server {
 		cfg.WB = 4096
 		cfg, prog = regenFor(r, cfg, ctx.Thorough())
 	}
@@ -431,12 +462,12 @@ func runC02(ctx *core.Ctx, out *core.Out) {
 	drawn := tp.Drawn()
 	desc := rtCase{Cfg: cfg, Prog: progDesc(prog), Upgrade: via}
 	if run == nil {
-		out.Inconcl("set-up handshake through Upgrader.Upgrade failed")
+		out.Inconcl("set-up handshake through Upgrader.Upgrade / Dialer.Dial failed")
 		out.Eval(core.J(desc), false)
 		return
 	}
 	if via {
-		out.Count("connections_built_by_upgrade", 1)
+		out.Count("connections_built_by_upgrade_or_dial", 1)
 	}
 	judgeWire(out, "C02", desc, cfg, prog, run, drawn, ctx.Idx%997 == 0)
 }
